@@ -67,7 +67,7 @@ theorem stepEventI_off (c : Cfg) (st : List Bool) (s : IndSt) (h : s.on = false)
       | ok t => simp [AgreeOff, p1, p2, hp]
   | charactersRaw str =>
     simp only [stepEventI, stepEvent, bind, Except.bind, pure, Except.pure]
-    cases wStr c.enc str with
+    cases wRaw c.enc str with
     | error e => simp [AgreeOff]
     | ok t => simp [AgreeOff, p1, p2, hp]
   | comment data =>
